@@ -1,0 +1,16 @@
+//go:build verif
+
+// Verification hook (add-only, compiled only with -tags verif): lets the
+// correspondence harness run the server's per-connection entry point
+// (Server.handleTcpConnect) over a fake net.Conn in the caller's goroutine.
+// Nothing here changes behaviour.
+
+package rtmp
+
+import "net"
+
+// VerifHandleTcpConnect is exactly what the accept loop starts in a goroutine
+// for every new connection.
+func (server *Server) VerifHandleTcpConnect(conn net.Conn) {
+	server.handleTcpConnect(conn)
+}
